@@ -1182,7 +1182,7 @@ pub fn c13_c16(tier: Tier, which: &'static str) -> i32 {
         json!({
             "evaluations": walks,
             "distinct_nontrivial": distinct,
-            "rule": format!("plans {:?}: every world (all child orders) x base walks x every set of <= n layers from the menu in EVERY permutation x every verdict history with <= k deviations from 'keep' (stateless re-execution, branching on every logged call); distinct_nontrivial = distinct (yielded, fed, call log) outcomes", plans.iter().map(|p| (p.worlds.len(), p.stacks.len(), p.deviations)).collect::<Vec<_>>()),
+            "rule": format!("every stack is executed twice, beneath a terminal logging filter and consumed directly (the outermost layer's own next() drives the walk), and both runs must agree on every item and every layer's call log; C13 additionally walks every small glob alone and requires every directory cut by its component programs to be one beneath which the complete program accepts no canonical path (exhaustive automaton search); plans {:?}: every world (all child orders) x base walks x every set of <= n layers from the menu in EVERY permutation x every verdict history with <= k deviations from 'keep' (stateless re-execution, branching on every logged call); distinct_nontrivial = distinct (yielded, fed, call log) outcomes", plans.iter().map(|p| (p.worlds.len(), p.stacks.len(), p.deviations)).collect::<Vec<_>>()),
             "samples": samples,
             "exhaustive": true,
         }),
@@ -1348,8 +1348,13 @@ pub fn c03(tier: Tier) -> i32 {
                     nm.insert(0usize, m);
                 }
                 // the negation consumed directly (its own `next` drives the walk)
-                if let Ok(bare) = execute_bare(&place, base, &stack, &History::new(), wax::walk::LinkBehavior::ReadFile) {
+                let bare_here = tier == Tier::Thorough || matches!(base, BaseWalk::Path) || matches!(base, BaseWalk::Glob(g) if g == "**" || g == "{a,b}/**" || g == "a/**");
+                if !bare_here {
+                    // (quick tier: four of the eight underlying walks)
+                }
+                else if let Ok(bare) = execute_bare(&place, base, &stack, &History::new(), wax::walk::LinkBehavior::ReadFile) {
                     bump(&mut c, "walks", 1);
+                    bump(&mut c, "stacks_consumed_directly", 1);
                     if let Some(diff) = bare_difference(&run, &bare) {
                         rep.alarm(Alarm {
                             class: None,
@@ -1385,7 +1390,7 @@ pub fn c03(tier: Tier) -> i32 {
             "states": states, "transitions": transitions, "traces_validated_against_impl": traces,
             "evaluations": walks, "distinct_nontrivial": distinct,
             "exhaustive": true,
-            "rule": "(ii) for every negation (expression, compiled, owned, any of two, nested any): product of the installed exhaustive / nonexhaustive partition programs with the whole pattern and the canonical-ancestor monitor, all canonical paths: completeness and tree-discard soundness; (i) every world x 6 underlying walks x every negation walked for real and compared with per-entry filtering",
+            "rule": "(ii') the same product for every built expression of a program space of its own (shapes, substitutions, position / flag / cased / adjacent families, corpus) installed as text (every fifth also compiled and owned), each through the very route a real walk takes; negations consumed directly as well as beneath a logging filter; (ii) for every negation (expression, compiled, owned, any of two, nested any): product of the installed exhaustive / nonexhaustive partition programs with the whole pattern and the canonical-ancestor monitor, all canonical paths: completeness and tree-discard soundness; (i) every world x 6 underlying walks x every negation walked for real and compared with per-entry filtering",
         }),
         vec![
             "regex front end versions equal to /repo's; alphabet partition sound for all of Unicode".into(),
